@@ -89,6 +89,8 @@ def render(t, names):
     h = L.hname(t)
     if h == "HLStatic":
         return "'static"
+    if h == "HLErased":
+        return "'erased"
     if h == "HLPlaceholder":
         return FORALL[t[1][2]]
     if h == "HLInfer":
@@ -259,7 +261,9 @@ def run(ctx):
               # two unknown lifetimes at a contravariant / covariant position (found red by this check, fixed in 9147c48)
               (N(("HAdt", ids["ContraL"]), [L.lt_var(0)]), N(("HAdt", ids["ContraL"]), [L.lt_var(1)])),
               (N(("HRef", "Not"), [L.lt_var(1), L.U32]), N(("HRef", "Not"), [L.lt_var(0), L.U32]))]
-    pairs = corpus_pairs(ids) + pinned + pairs
+    fixed = corpus_pairs(ids) + pinned + systematic_pairs(ids)
+    pairs = fixed + pairs
+    ctx.cov["systematic_pairs"] = len(fixed)
     solver_cases, meta = [], []
     for (a, b) in pairs:
         txt = goal_text(a, b, names)
@@ -372,6 +376,31 @@ def run(ctx):
                        "non-trivial = composite types" % ctx.n(3, 4))
     if not ok:
         ctx.violation({"kind": "proof", "broken": why}, no_input=True)
+
+
+def systematic_pairs(ids):
+    """Every variance position x every pair of lifetimes with 'static / 'erased / a placeholder on one side and an
+    unknown on the other (both orders), and two unknowns: a lifetime slot (of &, &mut, or a declared ADT parameter)
+    placed under each type context (identity, & / &mut pointee, raw pointers, slice, tuple, fn argument / return,
+    fn argument of an fn argument, declared ADT type parameters)."""
+    A = lambda name, *cs: N(("HAdt", ids[name]), list(cs))
+    FN = lambda *cs: N(("HFnPtr", 0, "AbiRust", "Safe", False), list(cs))
+    pa = L.lph(1, 0)
+    slots = [lambda l: N(("HRef", "Not"), [l, L.U32]), lambda l: N(("HRef", "Mut"), [l, L.U32]),
+             lambda l: A("CoL", l), lambda l: A("ContraL", l), lambda l: A("InvL", l), lambda l: A("Mix", l, L.U32)]
+    ctxs = [lambda t: t, lambda t: N(("HRef", "Not"), [pa, t]), lambda t: N(("HRef", "Mut"), [pa, t]),
+            lambda t: N(("HRaw", "Not"), [t]), lambda t: N(("HRaw", "Mut"), [t]), lambda t: N("HSlice", [t]),
+            lambda t: N(("HTuple", 2), [t, L.U32]), lambda t: FN(t, L.U32), lambda t: FN(L.U32, t), lambda t: FN(FN(t, L.U32), L.U32),
+            lambda t: A("CoT", t), lambda t: A("ContraT", t), lambda t: A("InvT", t), lambda t: A("Two", t, L.U32), lambda t: A("Two", L.U32, t),
+            lambda t: A("Mix", pa, t)]
+    x, y = L.lt_var(0), L.lt_var(1)
+    lts = [(L.STATIC, x), (x, L.STATIC), (N("HLErased"), x), (x, N("HLErased")), (pa, x), (x, pa), (x, y)]
+    out = []
+    for c in ctxs:
+        for sl in slots:
+            for (la, lb) in lts:
+                out.append((c(sl(la)), c(sl(lb))))
+    return out
 
 
 def corpus_pairs(ids):
